@@ -1372,8 +1372,8 @@ def modularity_louvain_und_sign(W, gamma=1, qtype='sta', seed=None):
 
         q.append(0)
         # compute modularity
-        q0 = np.trace(W0) - np.sum(np.dot(W0, W0)) / s0
-        q1 = np.trace(W1) - np.sum(np.dot(W1, W1)) / s1
+        q0 = np.trace(W0) - gamma * np.sum(np.dot(W0, W0)) / s0
+        q1 = np.trace(W1) - gamma * np.sum(np.dot(W1, W1)) / s1
         q[h] = d0 * q0 - d1 * q1
         if _VERIF:
             _verif_emit('level', fn='modularity_louvain_und_sign', ci=ci[h], q=q[h])
